@@ -23,6 +23,7 @@ def tables : List (String → List String → Option String) := []
   ++ [Drv.C15.table]
   ++ [Drv.TableApi.specTable]
   ++ [Drv.T2Db.table]
+  ++ [Drv.pureTable]
 
 /-- Stateful groups, selected by a first line `#mode <name>`. -/
 def modes : List Mode := []
